@@ -141,8 +141,12 @@ def direct_check(prop, fam, case, obs):
     return f(case, obs) if f else None
 
 
+AGREE = {}   # (property, family) or family -> projection-aware comparison; default: textual equality
+
+
 def agree(prop, fam, case, obs, pred):
-    return obs == pred
+    f = AGREE.get((prop, fam)) or AGREE.get(fam)
+    return f(case, obs, pred) if f else obs == pred
 
 
 def explain_disagreement(prop, fam, case, obs, pred):
@@ -207,3 +211,5 @@ import props_c18
 import props_c19
 props_c18.register(_sys.modules[__name__])
 props_c19.register(_sys.modules[__name__])
+import props_struct
+props_struct.register(_sys.modules[__name__])
